@@ -43,7 +43,12 @@ AddAll(v, n, cs) == IF cs = <<>> THEN v
                     ELSE AddAll(Append(v, <<n, Head(cs)>>), n, Tail(cs))
 If(c, s) == IF c THEN <<>> ELSE <<s>>
 
+ImpliedSize(f) == LET sq == IF f.side = "buy" THEN f.q ELSE -f.q IN
+                  IF ~f.ro THEN f.qb + sq
+                  ELSE IF f.qb * sq >= 0 THEN f.qb
+                  ELSE IF f.q > SAbs(f.qb) THEN 0 ELSE f.qb + sq
 \* ---- one fill: hooks seen between fillb and fille against HooksFor(before, after)
+Aborted == l < Len(Ev(tid)) /\ Ev(tid)[l + 1].k = "exc"
 Names(hs) == [i \in DOMAIN hs |-> hs[i][1]]
 FillClauses(S, f, qa) ==
   LET want == HooksFor(f.qb, qa)
@@ -51,10 +56,15 @@ FillClauses(S, f, qa) ==
       eff == Effect(f.qb, qa)
       tag == IF S.flip # "" THEN S.flip ELSE IF eff = "flip" THEN FlipTag(f) ELSE ""
   IN If(f.qb = S.q, "position-changed-outside-a-fill" \o tag)
+     \* the size after the fill is the size the fill implies (futures; a reduce-only order never increases or flips)
+     \o If(Hdr.spot \/ (f.ro /\ f.qb = 0) \/ qa = ImpliedSize(f), "position-size-after-the-fill-is-not-what-the-fill-implies")
      \o If(f.t = FillTime(f), "fill-time:clock-differs-from-the-minute-of-the-matched-candle")
      \o If(f.cm < 0 \/ InWindow(S.win, f), "fill-time:not-inside-a-candle-being-matched")
      \o If(\A i \in DOMAIN got : got[i][4] = FillTime(f), "hook-time:strategy-sees-another-minute-than-the-fill")
-     \o (IF Names(got) # Names(want)
+     \* a fill cut short by an exception raised inside execute() (for instance _on_open_position refusing a negative exit price
+     \* the strategy declared): the session is over, the hooks that had run must be a prefix of the ones the fill implies
+     \o (IF Aborted /\ Len(got) < Len(want) /\ Names(got) = SubSeq(Names(want), 1, Len(got)) THEN <<>>
+         ELSE IF Names(got) # Names(want)
          THEN <<"hook-word:" \o eff \o "-reported-as-" \o
                 (IF got = <<>> THEN "nothing" ELSE IF Len(got) = 1 THEN got[1][1] ELSE "several") \o tag>>
          ELSE If(\A i \in DOMAIN got : got[i][2] = want[i][2], "hook-qty:" \o eff \o tag)
